@@ -201,6 +201,9 @@ func report(prop, tier string, seed int, l *Loaded, results []*taskResult, known
 			}
 			if o.Sat > 0 {
 				confirmed := false
+				sort.SliceStable(o.Witnesses, func(i, j int) bool {
+					return !strings.Contains(o.Witnesses[i].Note, "abstraction") && strings.Contains(o.Witnesses[j].Note, "abstraction")
+				})
 				for wi, w := range o.Witnesses {
 					p := writeWitness(w, fmt.Sprintf("%s.%s.cex%d", tr.Harness, id, wi))
 					if noReplay || replayBin == "" {
